@@ -110,6 +110,7 @@ class Prop:
         if quick:
             groups += list(M.invalid_groups(3, labelings=("distinct", "clones"), thin=True))
             groups += list(M.invalid_groups(2, labelings=("equal",), thin=True))
+            groups += list(M.invalid_groups(2, nmin=2, typed=(True,), labelings=("distinct",), thin=True))
         else:
             groups += list(M.invalid_groups(3))
             groups += list(M.invalid_groups(4, nmin=4, labelings=("distinct", "clones"), thin=True))
@@ -125,12 +126,14 @@ class Prop:
         # (c) fault injection, model vocabulary
         fshapes = [s for n in range(1, 4 if quick else 5) for s in H.forests(n)] + PROBE_SHAPES[:2 if quick else 4]
         for shape in fshapes:
-            for lname in (("distinct",) if quick else ("distinct", "clones")):
-                st = M.two_tree_setup(shape, lname, False)
+            for lname, fty in ((("distinct", False),) if quick else (("distinct", False), ("clones", False), ("distinct", True))):
+                n = H.shape_size(shape)
+                if fty and n > 3:
+                    continue
+                st = M.two_tree_setup(shape, lname, fty)
                 if st is None:
                     continue
                 univ, setup, nodes, other = st
-                n = H.shape_size(shape)
                 ids = list(range(1, n + 1))
                 alts = []
                 for p in [0] + ids:
@@ -153,12 +156,13 @@ class Prop:
                 if quick:
                     ded = ded[::2] if n >= 3 else ded
                 for i in range(0, len(ded), CHUNK):
-                    yield dict(kind="alts", univ=univ, setup=setup, alts=ded[i:i + CHUNK], label=lname + "/fault")
+                    yield dict(kind="alts", univ=univ, setup=setup, alts=ded[i:i + CHUNK], label=lname + ("/typed" if fty else "") + "/fault")
                 # calc_data_id faults
                 new_d = univ.index("s:new")
                 f1, f2, f3 = (univ.index(x) for x in ("s:f1", "s:f2", "s:f3"))
-                cops = [["add", 0, ids[-1], new_d, None, None, None], ["add", 0, 0, new_d, None, None, True],
-                        ["short", 0, ids[0], "append_sibling", new_d, None, None], ["short", 0, ids[-1], "prepend_child", new_d, None, None],
+                kd = "k1" if fty else None
+                cops = [["add", 0, ids[-1], new_d, None, kd, None], ["add", 0, 0, new_d, None, kd, True],
+                        ["short", 0, ids[0], "append_sibling", new_d, None, None], ["short", 0, ids[-1], "prepend_child", new_d, None, kd],
                         ["set_data", 0, ids[0], new_d, None, False], ["set_data", 0, ids[-1], new_d, None, True],
                         ["rename", 0, ids[0], new_d], ["del", 0, {"d": new_d}],
                         ["from_dict", 0, ids[-1], [[f1, None, [[f2, None, []], [f3, None, []]]], [new_d, None, []]]],
